@@ -343,6 +343,10 @@ pub(crate) struct Dispatcher<T: Transport, E: UtpEnvironment> {
     connecting: HashMap<SocketAddr, ConnectingPerAddr>,
     control_rx: UnboundedReceiver<ControlRequest>,
     next_connection_id: SeqNr,
+
+    /// Verification hook: keys of the streams that datagrams were forwarded to.
+    #[cfg(librqbit_utp_verif)]
+    verif_forwarded: Vec<StreamRecvKey>,
 }
 
 impl<T: Transport, E: UtpEnvironment> Dispatcher<T, E> {
@@ -650,6 +654,10 @@ impl<T: Transport, E: UtpEnvironment> Dispatcher<T, E> {
         let key = (addr, message.header.connection_id);
 
         if let Some(tx) = self.streams.get(&key) {
+            #[cfg(librqbit_utp_verif)]
+            if !tx.is_closed() {
+                self.verif_forwarded.push(key);
+            }
             if tx.send(message).is_err() {
                 trace!(
                     ?key,
@@ -825,6 +833,8 @@ impl<T: Transport, Env: UtpEnvironment> UtpSocket<T, Env> {
             streams: Default::default(),
             connecting: Default::default(),
             next_connection_id: env.random_u16().into(),
+            #[cfg(librqbit_utp_verif)]
+            verif_forwarded: Vec::new(),
             control_rx,
             socket: sock.clone(),
             env,
